@@ -12,6 +12,10 @@ STRINGS = ["", "a", "Alice", 'q"uote', "back\\slash", "line\nbreak", "tab\there"
 END = "<<END>>"
 
 
+def CS(s_):
+    return vlib.coq_Nlist(list(s_.encode("utf-8")))
+
+
 def lit_string(s):
     out = []
     for ch in s:
@@ -151,6 +155,44 @@ class Gen:
             return {"tag": v[2]}
         return {"tag": v[2], "fields": [self.json_obj(t, x) for t, x in zip(tys, v[3])]}
 
+    # ---- the same definitions and values as terms of C18.Model ------------------------------------
+    def coq_fty(self, ty):
+        if ty in ("int32", "int64", "uint8", "int8", "uint16", "int16", "uint32", "uint64"):
+            return "FInt"
+        if ty == "bool":
+            return "FBool"
+        if ty == "string":
+            return "FString"
+        if ty == "unit":
+            return "FUnit"
+        return "(FNamed %d)" % self.order.index(ty)
+
+    def coq_defs(self):
+        out = []
+        for name in self.order:
+            kind, body = self.types[name]
+            if kind == "struct":
+                out.append("DStruct %s [%s]" % (CS(name), "; ".join("(%s, %s)" % (CS(f), self.coq_fty(t)) for f, t in body)))
+            else:
+                out.append("DEnum %s [%s]" % (CS(name), "; ".join("(%s, [%s])" % (CS(v), "; ".join(self.coq_fty(t) for t in tys)) for v, tys in body)))
+        return "[%s]" % "; ".join(out)
+
+    def coq_value(self, ty, v):
+        if ty in ("int32", "int64", "uint8", "int8", "uint16", "int16", "uint32", "uint64"):
+            return "(VInt %s [%s])" % ("true" if v < 0 else "false", "; ".join(str(abs(v))))
+        if ty == "bool":
+            return "(VBool %s)" % ("true" if v else "false")
+        if ty == "string":
+            return "(VStr %s)" % CS(v)
+        if ty == "unit":
+            return "VUnit"
+        kind, body = self.types[ty]
+        if v[0] == "struct":
+            return "(VStruct [%s])" % "; ".join(self.coq_value(t, x) for (f, t), (_, x) in zip(body, v[2]))
+        k = [vn for vn, _ in body].index(v[2])
+        tys = body[k][1]
+        return "(VEnum %d [%s])" % (k, "; ".join(self.coq_value(t, x) for t, x in zip(tys, v[3])))
+
     def program(self, n_values=5):
         defs = []
         for name in self.order:
@@ -166,7 +208,7 @@ class Gen:
             stmts.append("    let x%d: %s = %s;" % (i, ty, self.expr(ty, v)))
             stmts.append("    let _ = string_println(x%d.to_string());\n    let _ = string_println(\"%s\");" % (i, END))
             stmts.append("    let _ = string_println(x%d.to_json());\n    let _ = string_println(\"%s\");" % (i, END))
-            expect.append((ty, self.to_string(ty, v), self.json_obj(ty, v)))
+            expect.append((ty, self.to_string(ty, v), self.json_obj(ty, v), "(%s, %s)" % (self.coq_fty(ty), self.coq_value(ty, v))))
         return "".join(defs) + "fn main() {\n" + "\n".join(stmts) + "\n    ()\n}\n", expect
 
 
@@ -191,24 +233,26 @@ def check(run):
     run.level = "translation_validation"
     broken = []
     try:
-        vlib.proof_stage(run, "C18", ["C01/Properties.v"], pins="C01")
+        vlib.proof_stage(run, "C18", ["C01/Properties.v", "C18/Properties.v"], pins="C18")
     except Broken as b:
         broken.append(b)
     rng = run.sub_rng("c18")
     n = 60 if run.tier == "quick" else 1000
-    progs, expects = [], []
+    progs, expects, gens = [], [], []
     for _ in range(n):
         g = Gen(rng)
         g.make_types(rng.choice([1, 2, 3, 4]))
         p, e = g.program(rng.choice([3, 6]))
         progs.append(p)
         expects.append(e)
+        gens.append(g)
     wits, known_hits = [], {}
     stats = {"programs": n, "values": 0, "to_string_ok": 0, "to_json_ok": 0, "rejected": 0, "unsupported_in_go_model": 0, "strings_with_control_chars": 0}
     try:
         root, paths = semrun.write_programs("c18", progs)
         res = semrun.go_outputs("c18", paths)
-        for p, exp, r in zip(progs, expects, res):
+        model_cases = []
+        for p, exp, r, g in zip(progs, expects, res, gens):
             if r["status"] == "rejected":
                 # accepted types only; a rejection must carry a diagnostic (C04 checks that) - but these definitions are all supported
                 wits.append({"kind": "a struct/enum made of supported field types was rejected", "program": p, "impl": r.get("compile")})
@@ -227,9 +271,10 @@ def check(run):
             if len(chunks) != 2 * len(exp) + 1:
                 wits.append({"kind": "unexpected number of outputs", "program": p, "stdout": r["stdout"].decode("utf-8", "replace")[:2000]})
                 continue
-            for i, (ty, s_exp, j_exp) in enumerate(exp):
+            for i, (ty, s_exp, j_exp, _c) in enumerate(exp):
                 stats["values"] += 1
                 s_got, j_got = chunks[2 * i][:-1], chunks[2 * i + 1][:-1]
+                model_cases.append((g.coq_defs(), _c, j_got, p))
                 if s_got == s_exp:
                     stats["to_string_ok"] += 1
                 else:
@@ -251,6 +296,36 @@ def check(run):
                     else:
                         wits.append(w)
         shutil.rmtree(root, ignore_errors=True)
+        # ---- the Coq model of the derived encoder must print what the real program printed, and the Coq decoder
+        #      must read the real text back to the value (for strings without the characters of the known finding)
+        per = 40
+        texts = []
+        for k0 in range(0, len(model_cases), per):
+            body = "From Goml Require Import Common.Base C18.Model.\nOpen Scope N_scope.\n"
+            body += "Definition one (defs : list def) (c : fty * value) (real : str) : N :=\n  match enc defs 60 (fst c) (snd c) with\n  | Some s => if list_eqb s real then match dec defs 60 (fst c) real with Some (v, []) => if value_eqb v (snd c) then 0 else 2 | _ => 2 end else 1\n  | None => 3\n  end.\n"
+            body += "Eval vm_compute in [%s].\n" % "; ".join("one %s %s %s" % (d, c, CS(j)) for d, c, j, _ in model_cases[k0 : k0 + per])
+            texts.append(body)
+        outs = vlib.coq_eval_many("c18model", texts)
+        flat = []
+        for o in outs:
+            flat += vlib.parse_nat_list(o)
+        mstats = {"agree_and_decode": 0, "encoder_differs": 0, "decoder_fails": 0, "outside_model": 0}
+        for v, (d, c, j, p) in zip(flat, model_cases):
+            if v == 0:
+                mstats["agree_and_decode"] += 1
+            elif v == 3:
+                mstats["outside_model"] += 1
+            elif v == 2:
+                # the decoder rejects: allowed only for the control characters of the known finding
+                if any(ord(ch) < 32 for ch in j) or "\\x" in j or "\\a" in j or "\\v" in j:
+                    mstats["decoder_fails"] += 1
+                    known_hits.setdefault("control", {"kind": "the model's JSON decoder rejects the printed text", "program": p, "got": j})
+                else:
+                    wits.append({"kind": "the Coq decoder does not read the printed JSON back to the value", "program": p, "got": j})
+            else:
+                mstats["encoder_differs"] += 1
+                wits.append({"kind": "the Coq model of derive(ToJson) prints another text than the real program (model no longer describes the code)", "program": p, "got": j})
+        stats["model"] = mstats
         # definitions the derive cannot handle: a diagnostic, never a crash or broken generated code
         root, upaths = semrun.write_programs("c18u", [p for _, p in UNSUPPORTED])
         ures = semrun.go_outputs("c18u", upaths)
